@@ -226,8 +226,8 @@ class Model:
             return RAISE, 'spec'
         if u not in self.nodes or v not in self.nodes:
             return RAISE, 'spec'
-        if self.ek(u, v) in self.edges or self.ek(u, u) in self.edges or self.ek(v, v) in self.edges:
-            return None, 'unspec'          # self loops / an edge between the two merged nodes: undocumented
+        if self.ek(u, v) in self.edges:
+            return None, 'unspec'          # an edge between the two merged nodes themselves: undocumented
         pu, pv = self.nodes[u], self.nodes[v]
         new = dict(pu)
         if policy:
@@ -249,7 +249,7 @@ class Model:
         amb = {}
         for k in [k for k in self.edges if v in k]:
             w = [x for x in k if x != v]
-            w = w[0] if w else v
+            w = w[0] if w else u          # a link of the merged-in node to itself becomes a link of the merged node to itself
             p = self.edges.pop(k)
             nk = self.ek(u, w)
             if nk in self.edges:
